@@ -8,6 +8,7 @@ func initWorlds() {
 	worlds["C05"] = &histWorld{prop: "C05", tags: []string{"C05"}, kinds: sqKinds, minOps: 8}
 	worlds["C06"] = &histWorld{prop: "C06", tags: []string{"C06"}, kinds: heapKinds, loads: true, minOps: 8}
 	worlds["C07"] = &histWorld{prop: "C07", tags: []string{"C07"}, kinds: []string{"redblacktree", "avltree", "btree", "btree", "treemap", "treeset", "treebidimap"}, count: true, bigN: true, minOps: 8}
+	worlds["C08"] = &iterWorld{}
 	worlds["C09"] = &histWorld{prop: "C09", tags: []string{"C09"}, kinds: []string{"linkedhashmap", "linkedhashset"}, minOps: 8}
 	worlds["C10"] = &histWorld{prop: "C10", tags: []string{"C10"}, kinds: []string{"hashbidimap", "treebidimap"}, minOps: 8}
 	worlds["C15"] = &histWorld{prop: "C15", tags: []string{"C15"}, kinds: allKinds, c15: true, minOps: 8}
